@@ -11,6 +11,8 @@ ENGINES = [
      "kind_free_text": "3-5 real storage nodes + the real coordinator ShardController in one process over a harness-owned wire; generated fault programs; oracles over the recorded history"},
     {"name": "clientx", "path": "harness/clientx", "serves_properties": ["C20", "C18"],
      "kind_free_text": "the real public client over loopback gRPC against scripted fake OxiaClient servers"},
+    {"name": "coordx", "path": "harness/coordx", "serves_properties": ["C18", "C19"],
+     "kind_free_text": "real ApplyClusterChanges / ensemble selector / load balancer / Coordinator over stub nodes, driven by rapid generators"},
     {"name": "walx", "path": "harness/walx", "serves_properties": ["C09", "C10"],
      "kind_free_text": "rapid state machine + crash/corruption image generator over the real WAL against a list model"},
 ]
@@ -138,5 +140,19 @@ META = {
         "level_text": "Generated call streams, batching configurations, per-shard timings and error placements against the "
                       "unmodified client library over loopback gRPC; each result checked against the answer function of its own operation.",
         "level_note": "Loopback TCP and real timers (linger, retry backoff); hangs are inconclusive.",
+    },
+    "C18": {
+        "engine": "coordx+clientx", "technique": "property-based testing: partition invariant over generated config histories; differential routing check client vs server hash",
+        "design_ref": "DESIGN.md 4.5, 4.6, 5 C18",
+        "level_text": "Generated shard counts, config histories (pure and through the real coordinator) and assignment switches seen by "
+                      "the real client; one listed finding (namespace put back while its previous shards are being deleted).",
+        "level_note": "Coordinator-level and client-level parts use real timers/loopback sockets; timing bounds only make cases inconclusive.",
+    },
+    "C19": {
+        "engine": "coordx", "technique": "property-based testing of the real selector and balancer against a validity predicate",
+        "design_ref": "DESIGN.md 4.5, 5 C19",
+        "level_text": "Hundreds of thousands of generated clusters/policies for the selector and tens of thousands of balancer rounds, each "
+                      "checked against a validity predicate (not one expected placement).",
+        "level_note": "Anti-affinity uses the weakest reading of multi-label rules.",
     },
 }
